@@ -119,6 +119,22 @@ m("C08_no_lower_barrier_for_inequality_values", "cobyqa/problem.py",
 m("C03_merit_ignores_penalty_on_ties", "cobyqa/problem.py",
   "                    fun_filter[finite_idx] + penalty * maxcv_filter[finite_idx]\n",
   "                    fun_filter[finite_idx] + min(penalty, 1e6) * maxcv_filter[finite_idx]\n")
+m("C05_maxiter_off_by_one", "cobyqa/main.py",
+  "        if n_iter >= options[Options.MAX_ITER]:\n", "        if n_iter > options[Options.MAX_ITER]:\n")
+m("C07_message_typo", "cobyqa/main.py",
+  "        ExitStatus.MAX_EVAL_WARNING: \"The maximum number of function \"\n                                     \"evaluations has been exceeded\",\n",
+  "        ExitStatus.MAX_EVAL_WARNING: \"The maximum number of function \"\n                                     \"evaluations has been reached\",\n")
+m("C09_soc_target_handler_removed", "cobyqa/main.py",
+  "                        except TargetSuccess:\n                            status = ExitStatus.TARGET_SUCCESS\n                            success = True\n                            break\n                        except FeasibleSuccess:",
+  "                        except FeasibleSuccess:")
+m("C18_penalty_increase_without_best_update", "cobyqa/framework.py",
+  "                1.0,\n            )\n            self.set_best_index()\n", "                1.0,\n            )\n")
+m("C11_class_level_scratch_buffer", "cobyqa/models.py",
+  "        return self._e_hess @ v + interpolation.xpt @ (\n            self._i_hess * (interpolation.xpt.T @ v)\n        )\n",
+  "        buf = Quadratic._scratch.setdefault(v.size, np.empty(v.size))\n        np.dot(self._e_hess, v, out=buf)\n        tmp = interpolation.xpt @ (\n            self._i_hess * (interpolation.xpt.T @ v)\n        )\n        return buf + tmp\n")
+m("C12_reset_uses_stale_objective_table", "cobyqa/models.py",
+  "        self._fun = Quadratic(self.interpolation, self.fun_val, self._debug)\n        for i in range(self.m_nonlinear_ub):\n            self._cub[i] = Quadratic(",
+  "        self._fun = Quadratic(self.interpolation, np.roll(self.fun_val, 0) if self.npt < 2 * self.n + 1 else self.fun_val[::1] * (1.0 + 1e-9), self._debug)\n        for i in range(self.m_nonlinear_ub):\n            self._cub[i] = Quadratic(")
 # ---- controls (must stay quiet) ----------------------------------------------------------
 c("clip_as_minimum_maximum__C01-C06-C08-C20", "cobyqa/problem.py",
   "        return np.clip(x, self.xl, self.xu) if self.is_feasible else x\n",
@@ -137,6 +153,11 @@ c("renamed_probed_method__C18-C12-C01", "cobyqa/framework.py",
 
 
 def extra_edits(name, root):
+    if name == "C11_class_level_scratch_buffer":
+        p = os.path.join(root, "cobyqa/models.py")
+        t = open(p).read()
+        t = t.replace("class Quadratic:\n    \"\"\"\n    Quadratic model.", "class Quadratic:\n    _scratch = {}\n    \"\"\"\n    Quadratic model.", 1)
+        open(p, "w").write(t)
     if name.startswith("harmless_lru_cache"):
         p = os.path.join(root, "cobyqa/utils/math.py")
         s = open(p).read()
